@@ -15,8 +15,8 @@ Definition RF (k : N) (f f' : fnode) : Prop :=
   quote f' = quote f /\ parens f' = parens f /\ prev_lines f' = prev_lines f /\ spec_count f' = spec_count f /\
   (prev_lines f <> [] -> last_start f' = shP k (last_start f)).
 Definition RS (k : N) (s s' : st) : Prop :=
-  paren s' = paren s /\ indents s' = indents s /\ contstr s' = contstr s /\ endprog s' = endprog s /\ new_line s' = new_line s /\
-  prefix s' = prefix s /\ addp s' = addp s /\ max_ s' = max_ s /\ lnum s' = lnum s + k /\
+  paren s' = paren s /\ indents s' = indents s /\ contstr s' = contstr s /\ (contstr s <> [] -> endprog s' = endprog s) /\ new_line s' = new_line s /\
+  (contstr s <> [] -> prefix s' = prefix s) /\ addp s' = addp s /\ max_ s' = max_ s /\ lnum s' = lnum s + k /\
   Forall2 (RF k) (fstack s) (fstack s') /\ (contstr s <> [] -> contstr_start s' = shP k (contstr_start s)).
 
 Lemma RF_refl_fields k f f' : RF k f f' -> allow_multiline f' = allow_multiline f /\ in_expr f' = in_expr f /\ in_format_spec f' = in_format_spec f.
@@ -277,11 +277,11 @@ Ltac fin := match goal with
             | |- R3 (Ok (?s, ?toks, ?le)) _ => apply (R3_ok s _ toks le)
             end; rs0.
 
-Lemma classify_shift : forall s3 s3' toks line pfx start epos token has3 initial spos, RSk s3 s3' ->
+Lemma classify_shift : forall s3 s3' toks line pfx start epos token has3 initial spos, RSk s3 s3' -> prefix s3' = prefix s3 ->
   R3 (classify C isident s3 toks line pfx start epos token has3 initial spos)
      (classify C isident s3' (map (shT k) toks) line pfx start epos token has3 initial (shP k spos)).
 Proof.
-  intros s3 s3' toks line pfx start epos token has3 initial spos R. unfold classify.
+  intros s3 s3' toks line pfx start epos token has3 initial spos R PX. unfold classify.
   pose proof R as R0. destruct R as (A&B&C0&D&E&F&G&H&I0&J&K0).
   cbn [fst snd shP].
   destruct (chr_in initial digits || ((initial =? dot) && negb (str_eqb token [dot]) && negb (str_eqb token [dot; dot; dot]))); [fin|].
@@ -344,8 +344,10 @@ Proof.
       assert (SP: (lnum s2', start) = shP k (lnum s2, start)) by (unfold s2, s2', shP; cbn [lnum fst snd]; rewrite I0; reflexivity).
       rewrite SP.
       pose proof (indent_part_shift s2 s2' true initial start (lnum s2, start) R2s) as IP. unfold R2 in IP.
-      destruct (indent_part s2 true initial start (lnum s2, start)) as [[s3 t2]|]; destruct (indent_part s2' true initial start (shP k (lnum s2, start))) as [[s3' t2']|]; try contradiction; [|exact IP].
-      destruct IP as (R3s & ->). rewrite <- map_app. apply classify_shift. exact R3s.
+      destruct (indent_part s2 true initial start (lnum s2, start)) as [[s3 t2]|] eqn:IPa; destruct (indent_part s2' true initial start (shP k (lnum s2, start))) as [[s3' t2']|] eqn:IPb; try contradiction; [|exact IP].
+      destruct IP as (R3s & ->). rewrite <- map_app. apply classify_shift; [exact R3s|].
+      destruct (indent_part_spec _ _ _ _ _ _ _ IPa) as (_&_&_&_&_&P1&_). destruct (indent_part_spec _ _ _ _ _ _ _ IPb) as (_&_&_&_&_&P2&_).
+      rewrite P1, P2. reflexivity.
   - assert (SP: (lnum s1', start) = shP k (lnum s1, start)) by (unfold shP; cbn [fst snd]; rewrite I0; reflexivity).
     rewrite SP.
     pose proof (indent_part_shift s1 s1' false initial start (lnum s1, start) R10) as IP. unfold R2 in IP.
@@ -372,8 +374,8 @@ Proof.
   pose proof R as R0. destruct R as (A&B&C0&D&E&F&G&H&I0&J&K0). rewrite C0.
   destruct (contstr s) as [|cc ct] eqn:CS.
   - apply (scan_shift _ _ _ line pos [] R0).
-  - rewrite D. destruct (endprog s) as [r|]; [|reflexivity].
-    specialize (K0 ltac:(discriminate)).
+  - specialize (K0 ltac:(discriminate)). specialize (D ltac:(discriminate)). specialize (F ltac:(discriminate)).
+    rewrite D. destruct (endprog s) as [r|]; [|reflexivity].
     destruct (rmatch_at r line 0) as [[e cs]|].
     + rewrite K0, F.
       apply (scan_shift _ (mkSt (paren s) (indents s) [] (contstr_start s) (Some r) (new_line s) (prefix s) (addp s) (fstack s) (lnum s) (max_ s)) _ line e
@@ -403,23 +405,40 @@ Proof.
   destruct LS as (R1 & ->). rewrite <- map_app. apply IH. exact R1.
 Qed.
 
-(* ---------- the theorem ---------- *)
-Theorem tok_shift : forall lines inds sl sc first,
-  1 <= sl ->
-  tokenize_lines C isident isspace lines inds (sl + k) sc first =
-  match tokenize_lines C isident isspace lines inds sl sc first with Ok toks => Ok (map (shT k) toks) | Err e => Err e end.
+(* ---------- what tokenize_lines does after the last line ---------- *)
+Definition finish (r : result (st * list Token)) : result (list Token) :=
+  match r with
+  | Err x => Err x
+  | Ok (s, toks) =>
+    let t1 := match contstr s with
+              | [] => []
+              | _ => [mkTok ERRORTOKEN (contstr s) (fst (contstr_start s)) (snd (contstr_start s)) (prefix s)] end in
+    let t2 := match last_opt (fstack s) with
+              | Some f => match prev_lines f with
+                          | [] => []
+                          | _ => [mkTok FSTRING_STRING (prev_lines f) (fst (last_start f)) (snd (last_start f)) []] end
+              | None => [] end in
+    let t3 := map (fun _ => mkTok DEDENT [] (lnum s) (max_ s) []) (tl (indents s)) in
+    if forallb (fun f => match prev_lines f with [] => true | _ => false end) (removelast (fstack s))
+       && (match t2 with [] => true | _ => match addp s with [] => true | _ => false end end)
+    then Ok (toks ++ t1 ++ t2 ++ t3 ++ [mkTok ENDMARKER [] (lnum s) (max_ s) (addp s)])
+    else Err Guard
+  end.
+Lemma tokenize_lines_finish : forall lines inds sl sc first,
+  tokenize_lines C isident isspace lines inds sl sc first =
+  finish (lines_loop C isident isspace (mkSt 0 inds [] (0, 0) None true [] [] [] (sl - 1) 0) lines first sc []).
+Proof. intros. unfold tokenize_lines, finish. destruct (lines_loop _ _ _ _ _ _ _ _) as [[s t]|]; reflexivity. Qed.
+
+Lemma finish_shift : forall r r', R2 r r' ->
+  finish r' = match finish r with Ok toks => Ok (map (shT k) toks) | Err e => Err e end.
 Proof.
-  intros lines inds sl sc first SL. unfold tokenize_lines.
-  set (s0 := mkSt 0 inds [] (0, 0) None true [] [] [] (sl - 1) 0).
-  set (s0' := mkSt 0 inds [] (0, 0) None true [] [] [] (sl + k - 1) 0).
-  assert (R0: RSk s0 s0') by (unfold s0, s0'; rs0; try lia; intros X; contradiction).
-  pose proof (lines_loop_shift lines s0 s0' first sc [] R0) as LL. unfold R2 in LL. cbn [map] in LL.
-  destruct (lines_loop C isident isspace s0 lines first sc []) as [[s out]|]; destruct (lines_loop C isident isspace s0' lines first sc []) as [[s' out']|]; try contradiction; [|rewrite LL; reflexivity].
+  intros r r' LL. unfold R2 in LL. unfold finish.
+  destruct r as [[s out]|]; destruct r' as [[s' out']|]; try contradiction; [|rewrite LL; reflexivity].
   destruct LL as (R & ->). destruct R as (A&B&C0&D&E&F&G&H&I0&J&K0).
-  rewrite C0, (forallb_pending_shift _ _ (F2_removelast _ _ _ J)), G, B, I0, H, F.
-  assert (T1: match contstr s with [] => [] | _ :: _ => [mkTok ERRORTOKEN (contstr s) (fst (contstr_start s')) (snd (contstr_start s')) (prefix s)] end =
+  rewrite C0, (forallb_pending_shift _ _ (F2_removelast _ _ _ J)), G, B, I0, H.
+  assert (T1: match contstr s with [] => [] | _ :: _ => [mkTok ERRORTOKEN (contstr s) (fst (contstr_start s')) (snd (contstr_start s')) (prefix s')] end =
               map (shT k) (match contstr s with [] => [] | _ :: _ => [mkTok ERRORTOKEN (contstr s) (fst (contstr_start s)) (snd (contstr_start s)) (prefix s)] end)).
-  { destruct (contstr s) as [|cc ct]; [reflexivity|]. rewrite (K0 ltac:(discriminate)). reflexivity. }
+  { destruct (contstr s) as [|cc ct]; [reflexivity|]. rewrite (K0 ltac:(discriminate)), (F ltac:(discriminate)). reflexivity. }
   rewrite T1. clear T1.
   pose proof (F2_last _ _ _ J) as L.
   assert (FIN: forall (g : bool) (t2 : list Token),
@@ -435,6 +454,16 @@ Proof.
     + rewrite (LS ltac:(discriminate)).
       refine (eq_trans _ (FIN (forallb (fun f0 => match prev_lines f0 with [] => true | _ :: _ => false end) (removelast (fstack s)) && match addp s with [] => true | _ :: _ => false end) [mkTok FSTRING_STRING (y :: pl) (fst (last_start f)) (snd (last_start f)) []])). reflexivity.
   - apply (FIN _ []).
+Qed.
+
+(* ---------- the theorem ---------- *)
+Theorem tok_shift : forall lines inds sl sc first,
+  1 <= sl ->
+  tokenize_lines C isident isspace lines inds (sl + k) sc first =
+  match tokenize_lines C isident isspace lines inds sl sc first with Ok toks => Ok (map (shT k) toks) | Err e => Err e end.
+Proof.
+  intros lines inds sl sc first SL. rewrite !tokenize_lines_finish. apply finish_shift.
+  apply (lines_loop_shift lines _ _ first sc []). rs0; try lia; intros X; contradiction.
 Qed.
 End Shift.
 Print Assumptions tok_shift.
